@@ -868,7 +868,15 @@ class Body:
 class Facts:
     def __init__(self, path, view='plain'):
         with open(path) as f:
-            d = json.load(f)
+            txt = f.read()
+        # Container vocabulary (normal form, DESIGN 4.1): a VecDeque is a LinkedList as far as the rules are concerned — the
+        # methods the two share (push_front / push_back / pop_* / front / back / iter / len / split_off / append ...) mean the same
+        # on both, so a faithful migration of a chain or of the tracer list from one to the other leaves every verdict unchanged.
+        # Methods only VecDeque has (indexing, swap, remove(i), insert(i, ..)) keep a name no LinkedList rule knows.
+        txt = txt.replace('std::collections::VecDeque::<', 'std::collections::LinkedList::<') \
+                 .replace('std::collections::VecDeque<', 'std::collections::LinkedList<') \
+                 .replace('std::collections::vec_deque::', 'std::collections::linked_list::')
+        d = json.loads(txt)
         self.path = path
         self.view = view
         from . import inline
